@@ -1506,6 +1506,65 @@ SUBCHECKS = [
              'what remains'),
 ]
 
+# --------------------------------------------------------------------------------------------------
+# exotic builders at the depth limit
+
+def check_exotic_depth(case):
+    """Builder(type_=Merkle proof / Merkle update) over children of depth 1021..1023 (real chains, or pruned branches that state such a
+    depth), and an ordinary builder over the result: a cell of depth 1024 is never produced, one of depth <= 1023 is never refused"""
+    from pytoniq_core.boc.builder import Builder
+    d, kind, via = case['d'], case['kind'], case['child']
+    c = Builder().store_bits('101').end_cell()
+    if via == 'chain':
+        for k in range(d):
+            c = Builder().store_uint(k % 251, 8).store_ref(c).end_cell()
+        child_d0 = d
+    else:
+        # a pruned branch of level 1 that stands for a subtree of depth d (stored hash arbitrary): level-0 depth d
+        c = Builder(type_=1).store_uint(1, 8).store_uint(1, 8).store_bytes(bytes(range(32))).store_uint(d, 16).end_cell()
+        child_d0 = d
+    if c.get_depth(0) != child_d0:
+        return Fail('exotic-depth/child-depth-differs', f'{via} of depth {d} reports {c.get_depth(0)}')
+    lvl = 1 if via == 'pruned' else 0          # a Merkle cell looks at its child one level up; the pruned branch's own depth there is 0
+    eff = c.get_depth(lvl)
+
+    def merkle():
+        b = Builder(type_=3 if kind == 'proof' else 4).store_uint(3 if kind == 'proof' else 4, 8)
+        for _ in range(1 if kind == 'proof' else 2):
+            b.store_bytes(c.get_hash(lvl))
+        for _ in range(1 if kind == 'proof' else 2):
+            b.store_uint(eff, 16)
+        for _ in range(1 if kind == 'proof' else 2):
+            b.store_ref(c)
+        return b.end_cell()
+    ok, m = call(merkle)
+    want = eff + 1
+    if want > MAXD:
+        if ok:
+            return Fail('end_cell/cell-deeper-than-1023-produced', f'Merkle {kind} over a {via} child of depth {eff} at level {lvl}: '
+                        f'end_cell() returned a cell reporting depth {[m.get_depth(i) for i in range(4)]}')
+        return None
+    if not ok:
+        return Fail(f'end_cell/refused-within-limits/{exc_sig(m)}', f'Merkle {kind} over a {via} child of depth {eff}: {m!r}')
+    if max(m.get_depth(i) for i in range(4)) > MAXD or m.get_depth(0) != want:
+        return Fail('end_cell/cell-deeper-than-1023-produced' if m.get_depth(0) > MAXD else 'exotic-depth/merkle-depth-differs',
+                    f'Merkle {kind} over a child of depth {eff}: depths {[m.get_depth(i) for i in range(4)]}, expected {want}')
+    ok, top = call(lambda: Builder().store_ref(m).end_cell())
+    if want + 1 > MAXD:
+        if ok:
+            return Fail('end_cell/cell-deeper-than-1023-produced', f'ordinary cell over a Merkle {kind} of depth {want}: end_cell() returned a cell '
+                        f'reporting depth {top.get_depth(0)}')
+    elif not ok:
+        return Fail(f'end_cell/refused-within-limits/{exc_sig(top)}', f'ordinary cell over a Merkle {kind} of depth {want}: {top!r}')
+    return None
+
+
+SUBCHECKS.append(Sub('exotic-builders-at-the-depth-limit', check_exotic_depth,
+                     enum=lambda tier: [{'d': d, 'kind': k, 'child': v} for d in (1020, 1021, 1022, 1023) for k in ('proof', 'update') for v in ('chain', 'pruned')],
+                     classify=lambda c: ['d=%d' % c['d'], c['kind'], c['child']], nontrivial=lambda c: True, shards=(4, 4), case_cpu_s=120,
+                     note='Merkle proof / update builders over chains and pruned branches of depth 1020..1023, and an ordinary builder over the result'))
+
+
 # the same generated cases, several at a time, checked by threads that run at the same time (core.run_overlapping): per-call state
 # kept in a place two calls share shows only there
 SUBCHECKS.append(__import__('harness.core', fromlist=['overlapped']).overlapped(next(s for s in SUBCHECKS if s.name == 'builder-programs'), k=3, n=(60, 2000)))
